@@ -91,4 +91,14 @@ META = {
         'technique': 'data-flow obligations over the python ast (no SMT)',
         'engine': 'pyvc-own',
     },
+    'C14': {
+        'category': 'other',
+        'text': 'BOUNDED, not a proof: the comment-blanking pre-pass is compared with a reference automaton of X.680 12.6 (comments '
+                'blanked, newlines kept, nothing inside "..." is a comment) on every string up to length 7 (quick) / 9 (thorough) over '
+                'the six comment-relevant characters; plus 3 data-flow obligations on parse_string.',
+        'note': 'The grammar half of the property (white space between the words of multi-word keywords) is not decidable by a '
+                'contract on this code and is not claimed. No deductive obligation covers ignore_comments itself.',
+        'technique': 'bounded exhaustive comparison with a reference automaton (stand-in) + data-flow obligations over the ast',
+        'engine': 'native-crosscheck',
+    },
 }
